@@ -26,7 +26,8 @@ NAME = 'crash'
 PROPERTIES = ['C14']
 
 FORMATS = ['uamiv', 'lateral_boundary', 'temperature', 'wind', 'one3d',
-           'humidity', 'vertical_diffusivity', 'height_pressure', 'bpch']
+           'humidity', 'vertical_diffusivity', 'height_pressure', 'bpch', 'cloud_rain',
+           'landuse']
 CPU_CAP_S = 6           # per cut, alone; normal cost is 1-3 ms
 BATCH = 150
 
@@ -72,6 +73,10 @@ def _mkspec(rng, fmt):
         base['species'] = ['O3', 'NO2', 'CO'][:rng.randrange(1, 4)]
         base['nx'] = max(base['nx'], 2)
         base['ny'] = max(base['ny'], 2)
+    elif fmt == 'landuse':
+        base['nland'] = rng.choice([11, 26])
+        base['extra'] = rng.choice([[], ['VAR1'], ['LAI', 'TOPO']])
+        base['nt'] = 1
     elif fmt == 'bpch':
         base['nt'] = rng.randrange(1, 4)
         nb = rng.randrange(1, 4)
@@ -99,6 +104,16 @@ def build(fmt, spec):
         for e in camx.EDGES:
             for i, s in enumerate(g['species']):
                 truth['%s_%s' % (e, s)] = np.asarray(g['edges'][e][:, i], dtype='f4')
+    elif fmt == 'cloud_rain':
+        m = camx.cloud_rain_from_spec(spec)
+        b, meta = camx.encode_cloud_rain(m)
+        truth = {k: np.asarray(v, dtype='f4') for k, v in m['fields'].items()}
+    elif fmt == 'landuse':
+        m = camx.landuse_from_spec(spec)
+        b, meta = camx.encode_landuse(m)
+        truth = {'LUCAT%02d' % m['nland']: np.asarray(m['FLAND'], dtype='f4')[None]}
+        for k, a in m['extra']:
+            truth[k] = np.asarray(a, dtype='f4')[None]
     elif fmt == 'bpch':
         times = []
         base = 1.0
@@ -153,6 +168,9 @@ def open_reader(fmt, path, spec, via, mode='r'):
         from PseudoNetCDF.camxfiles import Memmaps
         return getattr(Memmaps, fmt)(path, **kw)
     rows, cols = spec['ny'], spec['nx']
+    if fmt == 'landuse' and mode != 'r':
+        from PseudoNetCDF.camxfiles import Memmaps
+        return Memmaps.landuse(path, rows, cols, mode=mode)
     if via == 'pncopen':
         return pnc.pncopen(path, format=fmt, rows=rows, cols=cols)
     from PseudoNetCDF.camxfiles import Memmaps
@@ -181,7 +199,7 @@ def present(fmt, path, spec, via, mode='r'):
             if k == 'TFLAG':
                 tflag = a
             continue
-        out[k] = a
+        out[k] = a[None] if fmt == 'landuse' else a     # the whole file is one "step"
     return {'vars': out, 'tflag': tflag}
 
 
@@ -200,6 +218,23 @@ def judge(fmt, pres, truth, full, N, step_ends, boundaries=None):
                 'one time block with tracers %s of %s (values genuine); the prefix ends on '
                 'a data-block boundary inside the first time block' % (
                     sorted(pres['vars']), sorted(truth)))
+    if fmt == 'cloud_rain' and on_boundary and set(pres['vars']) == {'CLOUD', 'PRECIP', 'COD'}:
+        # the format version (3 or 5 fields per layer) is inferred from the file
+        # size: a 5-field file cut where the size fits the 3-field layout is
+        # byte-for-byte a valid v4.2 file (see known_findings.json)
+        return ('read-as-3-field-layout',
+                'the prefix has the size of a complete older (3 fields per layer) file and is '
+                'presented as CLOUD/PRECIP/COD with %d step(s)' % (
+                    max([a.shape[0] for a in pres['vars'].values()] + [0])))
+    if fmt == 'landuse' and pres['vars'] and on_boundary and N < step_ends[0] and \
+            set(pres['vars']) < set(truth) and \
+            all(a.shape == truth[k].shape and a.astype('f4').tobytes() ==
+                truth[k].astype('f4').tobytes() for k, a in pres['vars'].items()):
+        # a land-use file cut after the fractions (or after the first optional
+        # field) is itself a valid land-use file without the later optional fields
+        return ('fewer-optional-fields',
+                'fields %s of %s presented (values genuine); the prefix ends on a record '
+                'boundary after a complete field' % (sorted(pres['vars']), sorted(truth)))
     for k, a in pres['vars'].items():
         if k not in truth:
             return ('unknown-variable', 'variable %s is not in the file' % k)
